@@ -352,38 +352,69 @@ theorem psDraw_refines (L : Lawful N) (d : Draw ν) (w : SW ν) (hw : PSWF w) (h
           have : (SAct.seq [ssay [SOp.path (.orig d.pid)]] w).1 = w := by simp [SAct.seq, ssay]
           rw [this, psStrokeTail_w L d.stroke hsn _ _ _ hj _ _ _ hw]
           exact psTailCache_wf _ _ _ _ _ _ _
-    · by_cases hfl : d.hasFill = true
-      · have hfn : d.fill ≠ .none := Paint.has_ne' hfl
-        have e : psDraw N d = SAct.seq [ssay [.path (.orig d.pid)], setPaint d.fill,
-            ssay [if d.evenOdd then SOp.eofill else SOp.fill], ssay [.path (.outline d.pid)], setPaint d.stroke, ssay [if false then SOp.eofill else SOp.fill]] := by
-          funext w; simp [psDraw, hst, hn, hfl]
-        have h := SSimO.cons (path_simO (N := N) (.orig d.pid) w []) (SSimO.cons (setPaint_simO d.fill _ _)
-          (SSimO.cons (fill_simO d.evenOdd _ _) (SSimO.cons (path_simO (.outline d.pid) _ [])
-            (SSimO.cons (setPaint_simO d.stroke _ _) (SSimO.cons (fill_simO false _ _) (SSimO.nil _ _))))))
-        rw [e, hsg w]
-        unfold SSimO at h
-        refine ⟨?_, ?_⟩
-        · rw [h]
-          simp only [SAct.seq, ssay, List.nil_append, List.append_nil]
-          rw [setPaint_w d.fill hfn w, setPaint_w d.stroke hsn, psFillItem_paint, psFillItem_paint]
-          simp [refPaint, hst, hn, hfl, psOpaque_fill _ hgf, psOpaque_fill _ hgs, hsg]
-        · simp only [SAct.seq, ssay]
-          rw [setPaint_w d.fill hfn w, setPaint_w d.stroke hsn]
-          exact PSWF_paint (PSWF_paint hw _) _
-      · have e : psDraw N d = SAct.seq [ssay [.path (.outline d.pid)], setPaint d.stroke, ssay [if false then SOp.eofill else SOp.fill]] := by
-          funext w; simp [psDraw, hst, hn, hfl]
-        have h := SSimO.cons (path_simO (N := N) (.outline d.pid) w [])
-            (SSimO.cons (setPaint_simO d.stroke _ _) (SSimO.cons (fill_simO false _ _) (SSimO.nil _ _)))
-        rw [e, hsg w]
-        unfold SSimO at h
-        refine ⟨?_, ?_⟩
-        · rw [h]
-          simp only [SAct.seq, ssay, List.nil_append, List.append_nil]
-          rw [setPaint_w d.stroke hsn w, psFillItem_paint]
-          simp [refPaint, hst, hn, hfl, psOpaque_fill _ hgs, hsg]
-        · simp only [SAct.seq, ssay]
-          rw [setPaint_w d.stroke hsn w]
-          exact PSWF_paint hw _
+    · by_cases hoe : d.outlineEmpty = true
+      · -- empty outline: `setPaint stroke; fill` on an empty current path paints nothing
+        by_cases hfl : d.hasFill = true
+        · have hfn : d.fill ≠ .none := Paint.has_ne' hfl
+          have e : psDraw N d = SAct.seq [ssay [.path (.orig d.pid)], setPaint d.fill,
+              ssay [if d.evenOdd then SOp.eofill else SOp.fill], setPaint d.stroke, ssay [if false then SOp.eofill else SOp.fill]] := by
+            funext w; simp [psDraw, hst, hn, hfl, hoe]
+          have h := SSimO.cons (path_simO (N := N) (.orig d.pid) w []) (SSimO.cons (setPaint_simO d.fill _ _)
+            (SSimO.cons (fill_simO d.evenOdd _ _)
+              (SSimO.cons (setPaint_simO d.stroke _ _) (SSimO.cons (fill_simO false _ _) (SSimO.nil _ _)))))
+          rw [e, hsg w]
+          unfold SSimO at h
+          refine ⟨?_, ?_⟩
+          · rw [h]
+            simp only [SAct.seq, ssay, List.nil_append, List.append_nil]
+            rw [setPaint_w d.fill hfn w, psFillItem_paint]
+            simp [refPaint, hst, hn, hfl, hoe, psOpaque_fill _ hgf, hsg, psFillItem]
+          · simp only [SAct.seq, ssay]
+            rw [setPaint_w d.fill hfn w, setPaint_w d.stroke hsn]
+            exact PSWF_paint (PSWF_paint hw _) _
+        · have e : psDraw N d = SAct.seq [setPaint d.stroke, ssay [if false then SOp.eofill else SOp.fill]] := by
+            funext w; simp [psDraw, hst, hn, hfl, hoe]
+          have h := SSimO.cons (setPaint_simO (N := N) d.stroke w []) (SSimO.cons (fill_simO false _ _) (SSimO.nil _ _))
+          rw [e, hsg w]
+          unfold SSimO at h
+          refine ⟨?_, ?_⟩
+          · rw [h]
+            simp [SAct.seq, ssay, refPaint, hst, hn, hfl, hoe, hsg, psFillItem]
+          · simp only [SAct.seq, ssay]
+            rw [setPaint_w d.stroke hsn w]
+            exact PSWF_paint hw _
+      · by_cases hfl : d.hasFill = true
+        · have hfn : d.fill ≠ .none := Paint.has_ne' hfl
+          have e : psDraw N d = SAct.seq [ssay [.path (.orig d.pid)], setPaint d.fill,
+              ssay [if d.evenOdd then SOp.eofill else SOp.fill], ssay [.path (.outline d.pid)], setPaint d.stroke, ssay [if false then SOp.eofill else SOp.fill]] := by
+            funext w; simp [psDraw, hst, hn, hfl, hoe]
+          have h := SSimO.cons (path_simO (N := N) (.orig d.pid) w []) (SSimO.cons (setPaint_simO d.fill _ _)
+            (SSimO.cons (fill_simO d.evenOdd _ _) (SSimO.cons (path_simO (.outline d.pid) _ [])
+              (SSimO.cons (setPaint_simO d.stroke _ _) (SSimO.cons (fill_simO false _ _) (SSimO.nil _ _))))))
+          rw [e, hsg w]
+          unfold SSimO at h
+          refine ⟨?_, ?_⟩
+          · rw [h]
+            simp only [SAct.seq, ssay, List.nil_append, List.append_nil]
+            rw [setPaint_w d.fill hfn w, setPaint_w d.stroke hsn, psFillItem_paint, psFillItem_paint]
+            simp [refPaint, hst, hn, hfl, hoe, psOpaque_fill _ hgf, psOpaque_fill _ hgs, hsg]
+          · simp only [SAct.seq, ssay]
+            rw [setPaint_w d.fill hfn w, setPaint_w d.stroke hsn]
+            exact PSWF_paint (PSWF_paint hw _) _
+        · have e : psDraw N d = SAct.seq [ssay [.path (.outline d.pid)], setPaint d.stroke, ssay [if false then SOp.eofill else SOp.fill]] := by
+            funext w; simp [psDraw, hst, hn, hfl, hoe]
+          have h := SSimO.cons (path_simO (N := N) (.outline d.pid) w [])
+              (SSimO.cons (setPaint_simO d.stroke _ _) (SSimO.cons (fill_simO false _ _) (SSimO.nil _ _)))
+          rw [e, hsg w]
+          unfold SSimO at h
+          refine ⟨?_, ?_⟩
+          · rw [h]
+            simp only [SAct.seq, ssay, List.nil_append, List.append_nil]
+            rw [setPaint_w d.stroke hsn w, psFillItem_paint]
+            simp [refPaint, hst, hn, hfl, hoe, psOpaque_fill _ hgs, hsg]
+          · simp only [SAct.seq, ssay]
+            rw [setPaint_w d.stroke hsn w]
+            exact PSWF_paint hw _
   · by_cases hfl : d.hasFill = true
     · have hfn : d.fill ≠ .none := Paint.has_ne' hfl
       have e : psDraw N d = SAct.seq [ssay [.path (.orig d.pid)], setPaint d.fill,
